@@ -825,6 +825,220 @@ def owned_check(funcs):
     return ok, "non-Transform pushes: %s; Compose callers: %s" % (bad, callers)
 
 
+
+# ----------------------------------------------------------------- static / global state scan
+SKIP_STMT = {"using", "typedef", "template", "friend", "extern", "static_assert", "class", "struct", "enum", "union",
+             "namespace", "return", "public", "private", "protected", "case", "default", "goto", "break", "continue",
+             "if", "else", "for", "while", "do", "switch", "throw", "delete", "co_return", "operator"}
+SPECIFIERS = {"static", "thread_local", "inline", "const", "constexpr", "mutable", "volatile", "constinit"}
+# mutable process-wide state that is neither thread_local, atomic, const nor a mutex: allowed only with a reason that
+# this scan re-checks
+STATIC_GUARDED = {("subdivision.cpp", "cache"): "Partition.cacheLock"}          # must also be a guarded field of the lock table
+STATIC_CONFIG = {   # name -> functions that may write it (explicit configuration calls, not part of C06's client programs)
+    ("manifold.cpp", "circularSegments_"): ("Quality::SetCircularSegments", "Quality::ResetToDefaults"),
+    ("manifold.cpp", "circularAngle_"): ("Quality::SetMinCircularAngle", "Quality::ResetToDefaults"),
+    ("manifold.cpp", "circularEdgeLength_"): ("Quality::SetMinCircularEdgeLength", "Quality::ResetToDefaults"),
+    ("manifold.cpp", "manifoldParams"): ("ManifoldParams",),
+}
+STATIC_HOOK = {("execution_impl.h", "controller"): "MANIFOLD_VERIF test hook (VerifCancelController): armed by a single-threaded test driver before client threads start"}
+
+
+def _struct_members_all_atomic(repo, tname):
+    for d in ("src", "include/manifold"):
+        for fn in sorted(os.listdir(os.path.join(repo, d))):
+            if not fn.endswith((".h", ".cpp")):
+                continue
+            txt = preprocess(open(os.path.join(repo, d, fn)).read())
+            m = re.search(r"\bstruct\s+%s\s*\{" % re.escape(tname), txt)
+            if not m:
+                continue
+            toks = tokenize(txt[m.end() - 1:])
+            j = match_brace(toks, 0)
+            depth, stmt, members = 0, [], []
+            for t, _ in toks[1:j]:
+                if t == "{":
+                    depth += 1
+                elif t == "}":
+                    depth -= 1
+                    if depth == 0:
+                        stmt = stmt if stmt and "(" not in stmt else []     # end of a member function body / brace init
+                        if stmt:
+                            continue
+                elif depth == 0 and t == ";":
+                    if stmt and "(" not in stmt:
+                        members.append("".join(stmt))
+                    stmt = []
+                elif depth == 0:
+                    stmt.append(t)
+            bad = [x for x in members if not x.startswith("std::atomic<")]
+            return bool(members) and not bad, bad
+    return False, ["struct %s not found" % tname]
+
+
+def static_state_scan(repo, funcs=None):
+    """Every function-local `static`, static data member and namespace-scope variable of src/ and include/manifold/
+    (configuration the TSan harness is built in).  Returns a list of dicts with category and ok."""
+    files = []
+    for d in ("src", "include/manifold"):
+        for fn in sorted(os.listdir(os.path.join(repo, d))):
+            if fn.endswith((".cpp", ".h")):
+                files.append(os.path.join(d, fn))
+    found = []
+    for rel in files:
+        toks = tokenize(preprocess(open(os.path.join(repo, rel)).read()))
+        base = os.path.basename(rel)
+        scope = ["ns"]           # ns / class / func / block / skip / init
+        start = 0
+        i, n = 0, len(toks)
+
+        def classify(stmt, kind):
+            words = [w for w, _ in stmt]
+            if not words:
+                return
+            # drop access labels / attributes in front
+            while words and (words[0] in ("public", "private", "protected") and len(words) > 1 and words[1] == ":"):
+                words = words[2:]
+                stmt = stmt[2:]
+            if not words or words[0] in SKIP_STMT or words[0].startswith("#") or "operator" in words:
+                return
+            lead = []
+            k = 0
+            while k < len(words) and words[k] in SPECIFIERS:
+                lead.append(words[k])
+                k += 1
+            if kind in ("func", "block", "class") and "static" not in lead and "thread_local" not in lead:
+                return                         # locals / non-static members are per call / per object
+            # where does the declarator end?
+            depth, cut, first_paren = 0, len(words), None
+            for q in range(k, len(words)):
+                w = words[q]
+                if w in ("(", "[", "<") and depth == 0 and w == "(" and first_paren is None:
+                    first_paren = q
+                if w in ("(", "["):
+                    depth += 1
+                elif w in (")", "]"):
+                    depth -= 1
+                elif w in ("=", "{") and depth == 0:
+                    cut = q
+                    break
+            if first_paren is not None and first_paren < cut:
+                inner = words[first_paren + 1] if first_paren + 1 < len(words) else ""
+                is_ctor_init = re.match(r"^\d", inner) is not None or inner in ("{", '""')
+                if not is_ctor_init:
+                    return                     # a function declaration
+                cut = first_paren
+            decl = words[k:cut]
+            if len(decl) < 2 or not re.match(r"^[A-Za-z_]\w*$", decl[-1]):
+                return
+            name = decl[-1]
+            ty = "".join(decl[:-1])
+            if decl[-2] == "::" or (len(decl) > 2 and "::" in decl[-3:-1] and False):
+                pass
+            # out-of-class definition `T Class::member(init)`: name is the last identifier, strip qualification from type
+            ty = re.sub(r"(\w+::)+$", "", ty)
+            if not ty or ty in ("return",) or ty.endswith(("->", ".")):
+                return
+            init = "".join(words[cut:])
+            e = {"file": rel, "line": stmt[0][1], "name": name, "type": ty, "scope": kind, "specifiers": lead}
+            if "constexpr" in lead or ("const" in lead and "*" not in ty) or (ty.startswith("const") and "*" not in ty):
+                e.update(category="const", ok=True)
+            elif "thread_local" in lead:
+                e.update(category="thread_local", ok=True)
+            elif ty.startswith("std::atomic") or ty.startswith("atomic<"):
+                e.update(category="atomic", ok=True)
+            elif ty in ("std::mutex", "std::recursive_mutex", "std::shared_mutex") or (ty == "auto" and init.startswith("=std::mutex(")):
+                e.update(category="mutex", ok=True)
+            elif (base, name) in STATIC_GUARDED:
+                e.update(category="guarded", ok=True, guard=STATIC_GUARDED[(base, name)])
+            elif (base, name) in STATIC_CONFIG:
+                e.update(category="configuration", ok=None, writers=list(STATIC_CONFIG[(base, name)]))
+            elif (base, name) in STATIC_HOOK:
+                e.update(category="verif-hook", ok=True, reason=STATIC_HOOK[(base, name)])
+            else:
+                ok, bad = _struct_members_all_atomic(repo, ty) if re.match(r"^[A-Z]\w*$", ty) else (False, [])
+                if ok:
+                    e.update(category="struct-of-atomics", ok=True)
+                else:
+                    e.update(category="UNSYNCHRONISED", ok=False,
+                             reason="mutable static/global state that is not thread_local, atomic, const, a mutex, or guarded by a lock of the table")
+            found.append(e)
+
+        while i < n:
+            t = toks[i][0]
+            if t == "{":
+                head = [w for w, _ in toks[start:i]]
+                cur = scope[-1]
+                if cur in ("func", "block", "skip", "init"):
+                    # brace inside a function: a nested block, a lambda body or a brace initialiser - statements
+                    # inside are still scanned for `static`
+                    if cur in ("skip", "init"):
+                        scope.append(cur)
+                    elif head and (head[-1] in (")", "else", "do", "try", "mutable", "noexcept", "const") or head[-1] == "]"
+                                   or (len(head) > 1 and head[-2] == "->")) or not head:
+                        scope.append("block")
+                        start = i + 1
+                    else:
+                        scope.append("init")
+                elif head and head[0] == "namespace" or (len(head) >= 2 and head[0] == "extern" and head[1] == '""') or (len(head) >= 2 and head[0] == "inline" and head[1] == "namespace"):
+                    scope.append("ns")
+                    start = i + 1
+                elif "(" not in head and head and head[0] == "enum" or (head[:2] == ["typedef", "enum"]):
+                    scope.append("skip")
+                elif "(" not in head and any(w in ("class", "struct", "union") for w in head[:4]) and "=" not in head:
+                    scope.append("class")
+                    start = i + 1
+                elif "(" in head and not ("=" in head and head.index("=") < head.index("(") and "operator" not in head):
+                    scope.append("func")
+                    start = i + 1
+                else:
+                    scope.append("init")          # `T x{..};` / `T x = {..};` - the statement continues after the brace
+            elif t == "}":
+                k = scope.pop() if len(scope) > 1 else "ns"
+                if k in ("init", "skip"):
+                    pass
+                else:
+                    start = i + 1
+                    if k == "class":
+                        # `struct X {...} var;` is not used for mutable state here; skip to ';'
+                        while i + 1 < n and toks[i + 1][0] != ";" and toks[i + 1][0] not in ("{", "}"):
+                            i += 1
+                        if i + 1 < n and toks[i + 1][0] == ";":
+                            i += 1
+                        start = i + 1
+            elif t == ";" and scope[-1] not in ("init", "skip"):
+                # for(;;) headers: ignore ';' inside parentheses
+                seg = toks[start:i]
+                if sum(1 for w, _ in seg if w == "(") == sum(1 for w, _ in seg if w == ")"):
+                    classify(seg, scope[-1])
+                    start = i + 1
+            elif t == ":" and scope[-1] == "class" and i > 0 and toks[i - 1][0] in ("public", "private", "protected"):
+                start = i + 1
+            i += 1
+    # configuration globals: every write must be inside one of the named functions
+    if funcs is not None:
+        for e in found:
+            if e["category"] != "configuration":
+                continue
+            bad = []
+            for k, f in funcs.items():
+                if os.path.basename(f.file) != os.path.basename(e["file"]):
+                    continue
+                body = f.body
+                for q, (w, ln) in enumerate(body):
+                    if w == e["name"] and q + 1 < len(body):
+                        nx = body[q + 1][0]
+                        wr = nx in ASSIGN_OPS or nx in ("++", "--") or (nx == "." and q + 3 < len(body) and body[q + 3][0] in ASSIGN_OPS)
+                        if wr and f.name not in e["writers"]:
+                            bad.append("%s:%d in %s" % (e["file"], ln, f.name))
+            e["ok"] = not bad
+            e["reason"] = ("process-wide configuration written only by %s (explicit calls by the user, outside C06's client programs)" % ", ".join(e["writers"])
+                           if not bad else "configuration global written outside its setters: %s" % bad)
+    for e in found:
+        if e["ok"] is None:
+            e["ok"] = False
+    return found
+
+
 # ----------------------------------------------------------------- assembling the table
 def build(repo):
     files = ["src/manifold.cpp", "src/csg_tree.cpp", "src/cross_section.cpp", "src/subdivision.cpp",
@@ -1028,7 +1242,9 @@ def run(repo, out_v, out_json=None):
     compose = [m for m in table if m[0] == "CsgLeafNode::Compose"]
     snap = sum(1 for kind, arg, line in (compose[0][1] if compose else []) if arg == (GLOBAL_REF, FIELD["Impl.meshIDCounter_"][0])) if compose else -1
     emit_coq(table, rank, out_v)
+    statics = static_state_scan(repo, funcs)
     info = {
+        "static_state": statics,
         "methods": [{"name": k, "file": funcs[k].file, "line": funcs[k].line,
                      "events": [[kind, list(arg) if not isinstance(arg, list) else [list(a) for a in arg], line] for kind, arg, line in evs],
                      "refs": refs} for k, evs, refs in table],
@@ -1059,4 +1275,8 @@ if __name__ == "__main__":
     for h in info["header_checks"]:
         if not h["ok"]:
             print("HEADER CHECK FAILED", h)
+    for e in info["static_state"]:
+        if e["category"] != "const":
+            print("STATIC %-28s %-4s %-22s %-18s %s:%d %s" % (e["name"], "ok" if e["ok"] else "BAD", e["type"][:22], e["category"], e["file"], e["line"], e.get("reason", "")[:80]))
+    print("const statics:", sum(1 for e in info["static_state"] if e["category"] == "const"))
     print("owned_check", info["owned_check"], "compose reads", info["compose_counter_reads"])
